@@ -103,6 +103,11 @@ SIDECHAIN = {
 TORSIONS = ["phi", "psi", "omega", "chi1", "chi2", "chi3", "chi4", "chi5"]
 AMINO = {"ALA", "ARG", "ASN", "ASP", "CYS", "GLN", "GLU", "GLY", "HIS", "ILE", "LEU", "LYS", "MET", "PHE", "PRO",
          "SER", "THR", "TRP", "TYR", "VAL"}
+# the same twenty amino acids under the names force fields give to their protonation / tautomer / disulfide states (AMBER,
+# CHARMM, GROMOS naming; what topologies from prmtop / psf files and pdb2gmx / tleap output carry).  The torsions are
+# documented by atom names only, so these residues have every named torsion a HIS / CYS / ASP / GLU / LYS residue has.
+AMINO_STATE_NAMES = {"HIS": ["HID", "HIE", "HIP", "HSD", "HSE", "HSP"], "CYS": ["CYX", "CYM"], "ASP": ["ASH"], "GLU": ["GLH"], "LYS": ["LYN"]}
+AMINO = AMINO | {v for vs in AMINO_STATE_NAMES.values() for v in vs}
 
 
 def residue_table(topology):
